@@ -587,7 +587,7 @@ def fn_otp_twofactor_DecodeRecoveryCodes : String := "func(codes string) []strin
 def fn_otp_twofactor_SetupEmailVerify : String := "func(ab *authboss.Authboss, twofactorKind, setupURL string) (EmailVerify, error) { e := EmailVerify{ Authboss: ab, TwofactorKind: twofactorKind, TwofactorSetupURL: setupURL, } var unauthedResponse authboss.MWRespondOnFailure if ab.Config.Modules.ResponseOnUnauthed != 0 { unauthedResponse = ab.Config.Modules.ResponseOnUnauthed } else if ab.Config.Modules.RoutesRedirectOnUnauthed { unauthedResponse = authboss.RespondRedirect } middleware := authboss.MountedMiddleware2(ab, true, authboss.RequireFullAuth, unauthedResponse) e.Authboss.Core.Router.Get(\"/2fa/\"+twofactorKind+\"/email/verify\", middleware(ab.Core.ErrorHandler.Wrap(e.GetStart))) e.Authboss.Core.Router.Post(\"/2fa/\"+twofactorKind+\"/email/verify\", middleware(ab.Core.ErrorHandler.Wrap(e.PostStart))) var routerMethod func(string, http.Handler) switch ab.Config.Modules.MailRouteMethod { case http.MethodGet: routerMethod = ab.Core.Router.Get case http.MethodPost: routerMethod = ab.Core.Router.Post default: return e, errors.New(\"MailRouteMethod must be set to something in the config\") } routerMethod(\"/2fa/\"+twofactorKind+\"/email/verify/end\", middleware(ab.Core.ErrorHandler.Wrap(e.End))) if err := e.Authboss.Core.ViewRenderer.Load(PageVerify2FA); err != nil { return e, err } return e, e.Authboss.Core.MailRenderer.Load(EmailVerifyHTML, EmailVerifyTxt) }"
 def fn_otp_twofactor_EmailVerify_PostStart : String := "func(w http.ResponseWriter, r *http.Request) error { cu, err := e.Authboss.CurrentUser(r) if err != nil { return err } user := cu.(User) ctx := r.Context() token, err := GenerateToken() if err != nil { return err } authboss.PutSession(w, authboss.Session2FAAuthToken, token) if e.Authboss.Config.Modules.MailNoGoroutine { e.SendVerifyEmail(ctx, user.GetEmail(), token) } else { go e.SendVerifyEmail(ctx, user.GetEmail(), token) } ro := authboss.RedirectOptions{ Code: http.StatusTemporaryRedirect, RedirectPath: e.Authboss.Config.Paths.TwoFactorEmailAuthNotOK, Success: e.Localizef(ctx, authboss.TxtEmailVerifyTriggered), } return e.Authboss.Config.Core.Redirector.Redirect(w, r, ro) }"
 def fn_otp_twofactor_EmailVerify_SendVerifyEmail : String := "func(ctx context.Context, to, token string) { mailURL := e.mailURL(token) email := authboss.Email{ To: []string{to}, From: e.Config.Mail.From, FromName: e.Config.Mail.FromName, Subject: e.Config.Mail.SubjectPrefix + e.Localizef(ctx, authboss.TxtEmailVerifySubject), } ro := authboss.EmailResponseOptions{ Data: authboss.NewHTMLData(DataVerifyURL, mailURL), HTMLTemplate: EmailVerifyHTML, TextTemplate: EmailVerifyTxt, } if err := e.Authboss.Email(ctx, email, ro); err != nil { } }"
-def fn_otp_twofactor_EmailVerify_End : String := "func(w http.ResponseWriter, r *http.Request) error { values, err := e.Authboss.Core.BodyReader.Read(PageVerifyEnd2FA, r) if err != nil { return err } tokenValues := MustHaveEmailVerifyTokenValues(values) wantToken := tokenValues.GetToken() givenToken, _ := authboss.GetSession(r, authboss.Session2FAAuthToken) if 1 != subtle.ConstantTimeCompare([]byte(wantToken), []byte(givenToken)) { ro := authboss.RedirectOptions{ Code: http.StatusTemporaryRedirect, Failure: e.Localizef(r.Context(), authboss.TxtInvalid2FAVerificationToken), RedirectPath: e.Authboss.Config.Paths.TwoFactorEmailAuthNotOK, } return e.Authboss.Core.Redirector.Redirect(w, r, ro) } authboss.DelSession(w, authboss.Session2FAAuthToken) authboss.PutSession(w, authboss.Session2FAAuthed, \"true\") ro := authboss.RedirectOptions{ Code: http.StatusTemporaryRedirect, RedirectPath: e.TwofactorSetupURL, } return e.Authboss.Core.Redirector.Redirect(w, r, ro) }"
+def fn_otp_twofactor_EmailVerify_End : String := "func(w http.ResponseWriter, r *http.Request) error { values, err := e.Authboss.Core.BodyReader.Read(PageVerifyEnd2FA, r) if err != nil { return err } tokenValues := MustHaveEmailVerifyTokenValues(values) wantToken := tokenValues.GetToken() givenToken, ok := authboss.GetSession(r, authboss.Session2FAAuthToken) if !ok || len(givenToken) == 0 || 1 != subtle.ConstantTimeCompare([]byte(wantToken), []byte(givenToken)) { ro := authboss.RedirectOptions{ Code: http.StatusTemporaryRedirect, Failure: e.Localizef(r.Context(), authboss.TxtInvalid2FAVerificationToken), RedirectPath: e.Authboss.Config.Paths.TwoFactorEmailAuthNotOK, } return e.Authboss.Core.Redirector.Redirect(w, r, ro) } authboss.DelSession(w, authboss.Session2FAAuthToken) authboss.PutSession(w, authboss.Session2FAAuthed, \"true\") ro := authboss.RedirectOptions{ Code: http.StatusTemporaryRedirect, RedirectPath: e.TwofactorSetupURL, } return e.Authboss.Core.Redirector.Redirect(w, r, ro) }"
 def fn_otp_twofactor_EmailVerify_Wrap : String := "func(handler http.Handler) http.Handler { return http.HandlerFunc(func(w http.ResponseWriter, r *http.Request) { if !e.Authboss.Config.Modules.TwoFactorEmailAuthRequired { handler.ServeHTTP(w, r) return } authed, _ := authboss.GetSession(r, authboss.Session2FAAuthed) if authed == \"true\" { handler.ServeHTTP(w, r) return } redirURL := path.Join(e.Authboss.Config.Paths.Mount, \"2fa\", e.TwofactorKind, \"email/verify\") ro := authboss.RedirectOptions{ Code: http.StatusTemporaryRedirect, Failure: e.Localizef(r.Context(), authboss.Txt2FAAuthorizationRequired), RedirectPath: redirURL, } if err := e.Authboss.Core.Redirector.Redirect(w, r, ro); err != nil { return } }) }"
 def fn_otp_twofactor_GenerateToken : String := "func() (string, error) { rawToken := make([]byte, verifyEmailTokenSize) if _, err := io.ReadFull(rand.Reader, rawToken); err != nil { return \"\", err } return base64.URLEncoding.EncodeToString(rawToken), nil }"
 def consts_otp_twofactor : List (String × String) := [
